@@ -995,8 +995,13 @@ def _rescale_regime(ctx, fn, shape):
             continue
         bufs.append((hold, per_col and eq(un(comp, "comp")[0], loop.k), c.node, loop.k))
     ok = all(x is not None and x[1] for x in bufs)
-    _chk(ctx, ok, f"{tag}: for every column i of the PSD, the curve's column i at the lower / upper edges is stored in column i of a zero array (one array per edge set)",
-         bufs[0][2] if bufs[0] else fn, None if ok else [_short(x[3]) if x else None for x in bufs], [x[3] for x in bufs if x] + [c.value for c in ip])
+    msg_ = f"{tag}: for every column i of the PSD, the curve's column i at the lower / upper edges is stored in column i of a zero array (one array per edge set)"
+    lost = [c for c, x in zip(ip, bufs) if x is None]
+    if lost and any(find_atoms(ns[0], lambda n, a_, key=S.fkey(c.value): n == "call:np.interp" and S.fkey(F.fn(n, *a_)) == key) for c in lost):
+        # where an interpolated column went was not followed (a store form that is not modelled), yet it reaches the result: not decided
+        ctx.error(msg_, lost[0].node, [_short(x[3]) if x else None for x in bufs])
+        return
+    _chk(ctx, ok, msg_, bufs[0][2] if bufs[0] else fn, None if ok else [_short(x[3]) if x else None for x in bufs], [x[3] for x in bufs if x] + [c.value for c in ip])
     if not ok:
         return
     B1, B2 = bufs[0][0], bufs[1][0]
